@@ -140,7 +140,7 @@ func c04Accept(r *R) {
 	if sel != nil && tv != nil && len(pr) >= 1 {
 		var vp ssa.CallInstruction
 		for _, s := range pr {
-			if r.d.Of(core.Arg(s.Common(), -1)) == "m.validatedTypes" {
+			if r.dOf(s.(ssa.Instruction)).Of(core.Arg(s.Common(), -1)) == "m.validatedTypes" {
 				vp = s
 			}
 		}
@@ -541,6 +541,42 @@ func c04Record(r *R) {
 	lrp := "result.LeaveRequestPaused(chst)"
 	r.guardedCalls("C04.8", fn, false, "(*channels.Channels).PauseResponder", 1, "+"+lrp)
 	r.guardedCalls("C04.8", fn, false, "(*channels.Channels).ResumeResponder", 1, "-"+lrp)
+	// completeness: a path that reports success has brought the channel in line with
+	// the validator's outcome — each item is either recorded or already equal
+	n := 0
+	for _, pt := range r.pathsOf("C04.8", fn) {
+		if pt.End != "return" || pt.RetDesc(0) != "nil" {
+			continue
+		}
+		n++
+		has := func(callee string) bool { return pt.Count(r.p.Is(callee)) > 0 }
+		var missing []string
+		if !has("(*channels.Channels).SetDataLimit") && !pt.Has("+chst.DataLimit()==result.DataLimit") {
+			missing = append(missing, "data limit neither recorded nor equal to the recorded one")
+		}
+		if !has("(*channels.Channels).SetRequiresFinalization") && !pt.Has("+chst.RequiresFinalization()==result.RequiresFinalization") {
+			missing = append(missing, "finalization requirement neither recorded nor equal to the recorded one")
+		}
+		if !has("(*channels.Channels).NewVoucherResult") && !pt.Has("+result.VoucherResult==nil") && !pt.Has("+result.VoucherResult.Voucher==nil") {
+			missing = append(missing, "voucher result present but not recorded")
+		}
+		switch {
+		case pt.Has("+" + lrp):
+			if !has("(*channels.Channels).PauseResponder") && !pt.Has("+chst.ResponderPaused()") {
+				missing = append(missing, "validator wants the request paused but the responder is neither paused nor already paused")
+			}
+		case pt.Has("-" + lrp):
+			if !has("(*channels.Channels).ResumeResponder") && !pt.Has("-chst.ResponderPaused()") {
+				missing = append(missing, "validator does not want the request paused but a paused responder is not resumed")
+			}
+		default:
+			missing = append(missing, "pause decision of the validator not consulted")
+		}
+		if len(missing) > 0 || n <= 1 {
+			r.c.Check(len(missing) == 0, "C04.8", fmt.Sprintf("recorded-in-full/path#%d", n), r.p.Pos(fn.Pos()), "every item of the validator's outcome is recorded or already equal", strings.Join(missing, "; ")+": "+pt.Describe())
+		}
+	}
+	r.c.Floor("C04.8", n, 4, "successful paths of recordAcceptedValidationEvents")
 }
 
 // C04.9: the transport validates the graphsync request only when the manager
